@@ -448,7 +448,7 @@ PROPS = {
     ),
     "C11": dict(
         level="other",
-        contracts=["contracts.footnotes"],
+        contracts=["contracts.footnotes", "contracts.fntransforms"],
         harness=True,
         explanation=(
             "PROVED (pyvc, relative to the docutils node / registry model and G'): render_footnote_ref attaches exactly one "
@@ -459,9 +459,13 @@ PROPS = {
             "'footnote' warning, attaches nothing and leaves every registry as it was (other footnotes undisturbed); "
             "otherwise it attaches exactly ONE footnote node, renders the text inside it "
             "and registers the node once - directly after what was registered before - in the manual registry for a "
-            "numeric label, in the auto-numbered one otherwise; earlier registry entries keep their place.  NOT under "
-            "contract: SortFootnotes / CollectFootnotes / UnreferencedFootnotesDetector (list.sort with a closure key, "
-            "filtering list comprehensions over docutils registries, node moves - outside the engine's subset) and docutils' "
+            "numeric label, in the auto-numbered one otherwise; earlier registry entries keep their place.  UnreferencedFootnotesDetector.apply "
+            "(three loop invariants over recursive specification functions of the registries) raises its 'not referenced' warning for exactly, "
+            "and in this order, every manually numbered definition that still has its name and has no back-reference, every symbol footnote "
+            "without back-reference and every such auto-numbered definition - one each, none for any other footnote - and leaves the registries alone "
+            "(relative to the view that create_warning records one warning about the node it is given; its own contract is C14's).  NOT under "
+            "contract: SortFootnotes / CollectFootnotes (list.sort with a closure key, "
+            "node moves - outside the engine's subset) and docutils' "
             "own Footnotes transform (numbering).  BOUNDED: "
             "all reference sequences up to length 3/4 over three labels and random reference/definition sequences "
             "(numeric and named labels, duplicates, unreferenced, with and without sorting / transition / heading / trailing "
